@@ -573,6 +573,42 @@ def run_session(db, rep, pname, unit, script):
     return H.ends[0]
 
 
+def wire_session(qmtp, msg, sender, rcpts, lens=None):
+    """a QMTP / QMQP session; lens: replacement texts for the length fields, by position (0 message, 1 sender, 2 recipient list (QMTP) / whole package (QMQP), 3.. recipients)"""
+    lens = lens or {}
+
+    def ns(b, k):
+        return lens.get(k, str(len(b)).encode()) + b':' + b + b','
+    body = (b'\n' + msg) if qmtp else msg
+    if qmtp:
+        rl = b''.join(ns(r, 3 + i) for i, r in enumerate(rcpts))
+        return ns(body, 0) + ns(sender, 1) + ns(rl, 2)
+    inner = ns(body, 0) + ns(sender, 1) + b''.join(ns(r, 3 + i) for i, r in enumerate(rcpts))
+    return ns(inner, 2)
+
+
+def length_overflow_sites(db, rep):
+    """a netstring length that does not fit the length variable (2^32+1, 2^64+1, eleven nines) in any field: the session ends as
+    out of resources or malformed, never with a wrapped length taken for a small one"""
+    out = {}
+    for pname, unit in (('qmail-qmtpd', 'qmail-qmtpd.c'), ('qmail-qmqpd', 'qmail-qmqpd.c')):
+        qmtp = pname == 'qmail-qmtpd'
+        bad = None
+        n = 0
+        for pos in (0, 1, 2, 3):
+            for txt in (b'4294967297', b'18446744073709551617', b'99999999999', b'4294967298', b'18446744073709551619'):
+                if bad:
+                    break
+                evs, end = run_session(db, rep, pname, unit, wire_session(qmtp, b'hi', b'a@b', [b'c@d', b'e@f'], {pos: txt}))
+                n += 1
+                outb = b''.join(e[1] or b'?' for e in evs if e[0] == 'out')
+                if any(e[0] == 'close' for e in evs) or b'K' in outb or end not in (('exit', 111), ('exit', 100)):
+                    bad = 'a session whose length field %d reads %r: %s, reply %r, then %s; documented: a length beyond the 200000000 limit ends the session (exit 111 or 100) before the number can wrap' % (
+                        pos, txt, [e for e in evs if e[0] != 'put'][:6], outb[:30], end)
+        out['%s:over-long-lengths-end-the-session-before-they-wrap' % pname] = (bad is None, unit + ':main', bad or '%d scripted sessions' % n, [])
+    return out
+
+
 def session_sites(db, rep):
     """both netstring daemons over well-formed sessions, sessions with a malformed length, and addresses at the size limit"""
     out = {}
@@ -1032,6 +1068,8 @@ def run(ctx):
     # ---------------------------------------------------------------- 9. netstring lengths are decimal numbers
     r9 = rep.rule('C07.9-netstring-lengths', 'R-SIBLING', 'whole QMTP and QMQP sessions over scripted byte streams: a length field with any byte other than "0".."9" before the colon (in the message, sender, recipient-list or recipient netstring) ends the session with exit 100, nothing queued or acknowledged; addresses of 1000 bytes or more, or with a NUL, are refused and never overrun the buffer')
     for inst_, v_ in sorted(sess.items()):
+        r9.check(v_[0], inst_, v_[1], v_[2], v_[3])
+    for inst_, v_ in sorted(length_overflow_sites(db, rep).items()):
         r9.check(v_[0], inst_, v_[1], v_[2], v_[3])
     r9.expect_min(2)
 
